@@ -35,6 +35,10 @@ int main(int argc, char** argv)
     std::atomic<long> accepted{0}, executed{0}, handled{0};
     int how = static_cast<int>(rnd() % 6);
     std::atomic<long> earlyReturn{0}, overMax{0};
+    // review F1: PLAIN (non-atomic) memory written by every task and read by both shutdown() callers after their return. For the
+    // caller that does not own the shutdown the release store / acquire load of _shutdownCompleteEpoch is the only happens-before
+    // edge to these writes: with relaxed orders ThreadSanitizer reports the race.
+    std::vector<int> plain(how == 4 ? 5 * 8 : 0, 0);
     {
       ThreadPool pool(mn, mx, std::chrono::milliseconds(1 + rnd() % 3), 16 + rnd() % 64,
                       [&](std::exception_ptr) { handled++; });
@@ -44,8 +48,10 @@ int main(int argc, char** argv)
         subs.emplace_back([&, s] {
           for (int i = 0; i < 150; ++i)
           {
-            auto body = [&, i] {
+            auto body = [&, i, s] {
+              if (!plain.empty() && i % 19 == 0) plain[static_cast<std::size_t>(s) * 8 + static_cast<std::size_t>(i / 19)] = i + 1;   // one slot per task: written once
               executed++;
+
               if (i % 17 == 0) { if (pool.tryEnqueue([&] { executed++; })) accepted++; }
               if (i % 13 == 0) throw std::runtime_error("task");
             };
@@ -67,7 +73,8 @@ int main(int argc, char** argv)
       else if (how == 4)
       {
         // two concurrent shutdown() callers: whoever returns, returns only when everything accepted has been executed
-        auto caller = [&] { pool.shutdown(); if (accepted.load() != executed.load()) earlyReturn++; };
+        auto caller = [&] { pool.shutdown(); long sum = 0; for (int v : plain) sum += v;   // plain reads FIRST: no other synchronisation in between
+                            if (sum < 0) earlyReturn++; if (accepted.load() != executed.load()) earlyReturn++; };
         std::thread a(caller), b(caller);
         a.join();
         b.join();
